@@ -194,7 +194,9 @@ pub fn render(c: &NCase) -> FileSet {
         for j in &imports {
             body += &format!("    <xs:complexType name=\"D{i}x{j}\"><xs:complexContent><xs:extension base=\"p{j}:A{j}\"><xs:attribute name=\"extra\" type=\"xs:string\"/></xs:extension></xs:complexContent></xs:complexType>\n");
         }
-        body += &format!("    <xs:complexType name=\"A{i}\"><xs:attribute name=\"id{i}\" type=\"xs:string\"/></xs:complexType>\n");
+        // a base whose only members are of builtin types: what derives from it in another file has
+        // no member of a user-defined type from this namespace, yet needs its prefix
+        body += &format!("    <xs:complexType name=\"A{i}\"><xs:sequence><xs:element name=\"v{i}\" type=\"xs:string\" minOccurs=\"0\"/></xs:sequence><xs:attribute name=\"id{i}\" type=\"xs:string\"/></xs:complexType>\n");
         let own_member_type = if no_own { "xs:string".to_string() } else { format!("tns:T{i}") };
         body += &format!("    <xs:element name=\"E{i}\"><xs:complexType><xs:sequence><xs:element name=\"v\" type=\"{own_member_type}\"/></xs:sequence></xs:complexType></xs:element>\n");
         let schema = format!("<xs:schema xmlns:xs=\"http://www.w3.org/2001/XMLSchema\"{root} targetNamespace=\"{}\" elementFormDefault=\"qualified\">\n{body}  </xs:schema>", esc(own));
